@@ -423,6 +423,19 @@ def wl_traceback(ctx, rng, case_no):
             ctx.case_done(("tb", src), False)
             return
         wit["shown"] = shown
+        # a frame header ("path:lineno in name") longer than the panel is wrapped at its blanks: put it back on one line
+        # (the path of a generated module grows with the process id and the case number)
+        merged, i = [], 0
+        base = os.path.basename(path)
+        while i < len(shown):
+            inner = shown[i].strip("│ ").rstrip()
+            if base in inner and re.search(r":\d+( in)?$", inner) and i + 1 < len(shown):
+                merged.append(inner + " " + shown[i + 1].strip("│ ").strip())
+                i += 2
+                continue
+            merged.append(shown[i])
+            i += 1
+        shown = merged
         # frames of our module: "path:lineno in name" header followed by the code block
         n_frames = 0
         for name, lineno in info["raise_lines"].items():
